@@ -933,8 +933,9 @@ theorem cpct_reported_errors_are_plain_errors_of_edited_input (E : Env)
 /-- **Capstone: with the modelled CPCT+ recoverer, a run that gives up stops where the plain parse of
 the edited input has its first error.** `unrepaired_error_is_first_error_of_edited_input_certified` for
 `recover := cpctRecover …`; same hypotheses. (The recoverer gives up when the search finds no repair of
-representable cost, when its budget runs out, or when the model of the real code panics:
-`Cpct.cpctOutcome`.) -/
+representable cost or when its budget runs out: `Cpct.cpctOutcome`; the fourth outcome, a panic of the
+model of the real code, does not occur in a run on a certified table with an input of real tokens —
+`C06.recover_never_panics_in_a_run`.) -/
 theorem cpct_unrepaired_error_is_first_error_of_edited_input (E : Env)
     (hcert : wholeRunCert E.G E.A = true) (hsa : stateActionsExactB E.G E.A = true)
     (hcost : ∀ t, 1 ≤ E.cost t) (hN : 1 ≤ E.N) (hs : List Seq → List Seq) (hhs : HashSetLike hs)
